@@ -1,5 +1,5 @@
 /-
-  Tie obligations for C09: what the translator reads from `daemons.stop_daemons` / `stop_daemon`
+  Tie obligations for C09: what the translator reads from `daemons.stop_daemons` / `stop_daemon` / `spawn_daemons` / `match_daemons`
   (Kopf/Extracted/C09.lean, regenerated on every run) equals the hand-written model that the
   property theorems are about.
 -/
@@ -51,5 +51,22 @@ theorem sleeps_wake_on_stop : Extracted.sleepsWakeOnStop = true := by decide
 
 /-- `_timer` re-checks the stopper after the wait for idleness (`tstep` at `idleDone`): `stopped_timer_returns` -/
 theorem timer_rechecks_stop_after_idle : Extracted.timerRechecksStopAfterIdle = true := by decide
+
+/-- `spawn_daemons` for one selected handler — spawn when the id is free, a re-check delay (`cancellation_polling`) when the
+    previous instance is still there with its stopper set, nothing otherwise: the variant (`escorts`, since ef26531)
+    `deferred_start_is_rescheduled` / `spawn_only_when_none` are about -/
+theorem spawn_act_eq (idTaken stopperSet : Bool) : Extracted.spawnAct idTaken stopperSet = spawnAct treeEscorts idTaken stopperSet := by
+  cases idTaken <;> cases stopperSet <;> rfl
+
+/-- `match_daemons` visits the daemons whose handler is not selected AND those that carry FILTERS_MISMATCH: the variant
+    `escorted_whatever_matching` / `mismatch_stages_visited` are about -/
+theorem match_visits_eq (notSelected flaggedMismatch : Bool) :
+    Extracted.matchVisits notSelected flaggedMismatch = matchVisits treeEscorts notSelected flaggedMismatch := by
+  cases notSelected <;> cases flaggedMismatch <;> rfl
+
+/-- `match_daemons` asks for an immediate re-visit (delay 0) when a visited daemon has ended while its handler is selected:
+    `ended_in_visit_asks_revisit` / `replaced_within_one_further_cycle` -/
+theorem revisit_now_eq (selected gone : Bool) : Extracted.revisitNow selected gone = revisitNow treeEscorts selected gone := by
+  cases selected <;> cases gone <;> rfl
 
 end Kopf.C09.Tie
